@@ -91,7 +91,7 @@ class Getter:
         """
         # shortcut if Sid is not a search
         sid = Sid(search_sid)
-        if sid and not sid.is_search() and not is_alias_search(sid):
+        if sid and not sid.is_search() and not is_alias_search(sid) and not sid.string.count("?"):
             generator = self.do_get([sid], attributes=attributes, sid_encode=sid_encode)
         else:
             search_sids = unfold_search(search_sid)
